@@ -585,6 +585,20 @@ fn run_one(rt: &tokio::runtime::Runtime, dir: &Path, case: &Value) -> (String, S
 			let bytes: Vec<u8> = case["bytes"].as_array().unwrap().iter().map(|b| b.as_u64().unwrap() as u8).collect();
 			run_text(rt, dir, case["dec"].as_str().unwrap(), &bytes)
 		}
+		"csvrows" => {
+			// a table by shape: header "rid,c1,c2"[..h], row i with n fields "i,v,v,..." (0 fields = an empty line)
+			let h = case["header"].as_u64().unwrap() as usize;
+			let names = ["rid", "c1", "c2"];
+			let mut t = names[..h].join(",");
+			t.push('\n');
+			for (i, n) in case["rows"].as_array().unwrap().iter().enumerate() {
+				let n = n.as_u64().unwrap() as usize;
+				let fields: Vec<String> = (0..n).map(|j| if j == 0 { format!("{i}") } else { format!("v{j}") }).collect();
+				t.push_str(&fields.join(","));
+				t.push('\n');
+			}
+			run_text(rt, dir, "csv", t.as_bytes())
+		}
 		"ring" => {
 			let (i, j) = (case["before"].as_u64().unwrap() as usize, case["after"].as_u64().unwrap() as usize);
 			let dec = case["dec"].as_str().unwrap();
